@@ -178,4 +178,42 @@ theorem client_data {j : JVal} {cd : ClientData} (h : clientDataOfJVal j = .ok c
       (∃ ch, JVal.lookup kvs "challenge" = some ch ∧ b64urlOfJVal ch = .ok cd.challenge) ∧
       JVal.lookup kvs "origin" = some cd.origin := clientDataOfJVal_ok h
 
+/-- the enumerated strings, from the regenerated enum table -/
+theorem attachment_values : enumValues "AuthenticatorAttachment" = ["platform", "cross-platform"] := by decide
+
+theorem credential_type_values : enumValues "PublicKeyCredentialType" = ["public-key"] := by decide
+
+/-- An attachment is reported only when the member is *exactly* one of the two specification strings (no other
+spelling, case or decoration), and then it is that string; any other string is refused. -/
+theorem attachment_exact {kvs : List (String × JVal)} {a : Option String} (h : attachmentOf kvs = .ok a) :
+    (∃ s, JVal.lookup kvs "authenticatorAttachment" = some (.str s) ∧ a = some s ∧ (s = "platform" ∨ s = "cross-platform")) ∨
+    (a = none ∧ ∀ s, JVal.lookup kvs "authenticatorAttachment" ≠ some (.str s)) := by
+  unfold attachmentOf at h
+  split at h
+  · rename_i s hs
+    split at h
+    · rename_i hc
+      left
+      refine ⟨s, hs, (Except.ok.inj h).symm, ?_⟩
+      rw [attachment_values] at hc
+      simpa using hc
+    · cases h
+  · rename_i hn
+    right
+    exact ⟨(Except.ok.inj h).symm, fun s hs => hn s hs⟩
+
+/-- The credential type must be exactly "public-key". -/
+theorem type_exact {kvs : List (String × JVal)} (h : credTypeOk kvs = .ok ()) :
+    JVal.lookup kvs "type" = some (.str "public-key") := by
+  unfold credTypeOk at h
+  split at h
+  · rename_i s hs
+    split at h
+    · rename_i hc
+      rw [credential_type_values] at hc
+      have : s = "public-key" := by simpa using hc
+      rw [hs, this]
+    · cases h
+  · cases h
+
 end Webauthn.Props.C13
